@@ -263,23 +263,48 @@ def run(repo, rep, tier):
     # parsed later are the stripped non-empty lines, in order
     from sa.listinterp import Interp as _I18
     from sa.abseval import Unknown as _U18
-    tls = [n for n in walk_no_nested(pc) if isinstance(n, ast.Assign) and unparse(n.targets[0]) == 'aconf.target_list' and not (isinstance(n.value, ast.Call) and unparse(n.value.func).endswith('readlines'))]
-    rep.floor('targets-file', 'targets-file normalisation', len(tls), 1)
+    # the statement of process_commandline that opens the targets file is interpreted as a whole (the file object is a token that iterates over / reads the
+    # raw lines), so reading and normalising may be one statement or several
+    class _FileLines(list):
+        def __deepcopy__(self, memo):
+            return self
+    opens = [n for n in walk_no_nested(pc) if isinstance(n, ast.Call) and unparse(n.func) == 'open' and n.args and unparse(n.args[0]) == 'aconf.target_file']
+    rep.floor('targets-file', 'open(aconf.target_file) sites', len(opens), 1)
+    blk = opens[0]
+    while getattr(blk, '_parent', None) is not None and getattr(blk, '_parent', None) is not pc:
+        blk = blk._parent
+    tls = [blk]
     raw = ['alpha\n', '  beta:2222  \n', '\n', '   \t \n', 'gamma', '\r\n', ' [::1]:22\r\n']
 
     def hook_tl(call, e, interp):
         f_ = call.func
+        if unparse(f_) == 'open':
+            return (True, _FileLines(raw))
+        if isinstance(f_, ast.Attribute) and f_.attr in ('readlines', 'read', 'close') and not call.args:
+            try:
+                b_ = interp.value(f_.value, e)
+            except _U18:
+                b_ = None
+            if isinstance(b_, _FileLines):
+                return (True, list(b_) if f_.attr == 'readlines' else (''.join(b_) if f_.attr == 'read' else None))
         if unparse(f_) == 'map' and len(call.args) == 2 and unparse(call.args[0]) in ('str.strip', 'str.rstrip', 'str.lstrip'):
             seq = interp.value(call.args[1], e)
             if isinstance(seq, list) and all(isinstance(x, str) for x in seq):
                 return (True, [getattr(str, unparse(call.args[0]).split('.')[1])(x) for x in seq])
+        if isinstance(f_, ast.Attribute) and f_.attr == 'splitlines' and not call.args:
+            v_ = interp.value(f_.value, e)
+            if isinstance(v_, str):
+                return (True, v_.splitlines())
         return None
     try:
-        fin = _I18(call_hook=hook_tl).run(tls, {'aconf': None, 'aconf.target_list': list(raw)})
+        fin = _I18(call_hook=hook_tl, with_targets=True, try_normal_path=True).run(tls, {'aconf': None, 'aconf.target_file': 'targets.txt', 'aconf.target_list': [], 'aconf.client_audit': False})
     except _U18 as ex:
         raise AnalysisError('targets-file normalisation cannot be interpreted: %s' % ex)
+    fin = [f_ for f_ in fin if f_.get('<outcome>') not in ('raise',)]
     got_tl = fin[0].get('aconf.target_list') if len(fin) == 1 and not fin[0].get('<forks>') else None
     want_tl = ['alpha', 'beta:2222', 'gamma', '[::1]:22']
+    if not isinstance(got_tl, list) or any(not isinstance(x_, str) for x_ in got_tl):
+        raise AnalysisError('targets-file normalisation: the resulting target list is not computable (%r)' % (got_tl,))
     rep.check('targets-file', 'entries are whitespace-stripped, blank and whitespace-only lines are dropped, order kept', got_tl == want_tl, tls[0],
               'targets-file lines %r are normalised to %r, expected %r: a whitespace-only line survives as an empty target, or an entry keeps its padding' % (raw, got_tl, want_tl), stmt='aconf.target_list = [... if ...]')
 
